@@ -389,6 +389,28 @@ def task_expansions(params, rec):
                 if abs(got - ex) >= bound:
                     rec.violation(f"{op}-error-bound:unnormalised-operands", dict(dtype=params["dtype"], x=list(x), y=list(y) if op == "multiply" else None, result=list(r),
                                                                                    functional=functional, error_in_ulps_of_leading=float(abs(got - ex) / bound)))
+        # the package's own overlap predicate (used to state / test the normal form): symmetric, and equal to |x| >= ulp(y) and |y| >= ulp(x) with ulp
+        # the spacing of the float lattice, whichever argument is larger
+        if len(seq) >= 2 and i % 2 == 0:
+            from functional_algorithms import utils as fa_utils
+
+            pairs = [(seq[j], seq[j + 1]) for j in range(len(seq) - 1)] + [(seq[-1], seq[0])]
+            for a_, b_ in pairs:
+                for x_, y_ in ((a_, b_), (b_, a_), (a_, -b_)):
+                    rec.count("judged:overlapping-predicate")
+                    with numpy.errstate(all="ignore"):
+                        got = bool(fa_utils.overlapping(x_, y_))
+                    if x_ == y_:
+                        want = True
+                    elif x_ == 0 or y_ == 0:
+                        want = False
+                    else:
+                        ax_ = abs(int(exact.to_units(numpy.array([x_], dtype=dt))[0]))
+                        ay_ = abs(int(exact.to_units(numpy.array([y_], dtype=dt))[0]))
+                        want = ax_ >= ulp_units(y_, dt) and ay_ >= ulp_units(x_, dt)
+                    if got != want:
+                        rec.violation("utils.overlapping", dict(dtype=params["dtype"], x=x_, y=y_, got=got, expected=want))
+                        break
         if i < 2:
             rec.sample(dict(dtype=params["dtype"], seq=list(seq), pattern=pat, functional=functional, fast=fast))
     contracts.detach_all()
